@@ -11,8 +11,11 @@ if os.path.exists("/tmp/seed_results.txt"):
         if m:
             res[(m.group(1), m.group(2))] = {"check_exit": int(m.group(3)), "violations": int(m.group(4)), "keys": re.findall(r"key: (\S+)", m.group(5))}
             hist.setdefault((m.group(1), m.group(2)), []).append("exit %s, %s violations" % (m.group(3), m.group(4)))
+only = set(sys.argv[1:])  # optional: Cxx/n ... (default: everything under /tmp/mut-out)
 for d in sorted(glob.glob("/tmp/mut-out/C*/[0-9]*")):
     pid, n = d.split("/")[-2:]
+    if only and pid + "/" + n not in only:
+        continue
     cf = d + "/confirm.json"
     if not os.path.exists(cf):
         continue
